@@ -146,6 +146,12 @@ def monitors(steps, focus):
                 ips = [ipamgen.s2ip(ex["ip"])]
             if ips:
                 out.append(("(mon_fresh %s %s %s)" % (conf_trees(conf), cdump(prev), clist(cN(x) for x in ips)), i, "fresh"))
+        if focus == "C09" and prev is not None and k in ("alloc_in_subnet", "alloc_ranges", "alloc_specific"):
+            # an allocation request - failed or not - never removes or rewrites an administrator's reservation object
+            resv = [e for e in prev["store"] if e[5]]
+            now = {e[0]: e for e in d["store"]}
+            ok = all(e[0] in now and now[e[0]] == e for e in resv)
+            out.append(("true" if ok else "false", i, "reservations_survive_requests"))
         nested = o.get("nested")
         if nested and focus == "C09" and nested.get("res") == "ok" and conf is not None:
             # an allocation that was acknowledged while a reload was in progress must survive the reload
